@@ -19,6 +19,26 @@ var selKeywords = map[string]bool{"SELECT": true, "DISTINCT": true, "FROM": true
 	"RIGHT": true, "FULL": true, "CROSS": true, "NATURAL": true, "ON": true, "USING": true, "OR": true, "AND": true, "NOT": true, "IS": true,
 	"LIKE": true, "NULL": true, "BETWEEN": true, "IN": true}
 
+// query level (op c18.qry): set operators, parenthesised queries as their operands, WITH, FOR UPDATE
+var qryMode bool
+var qryKeywords = map[string]bool{"UNION": true, "EXCEPT": true, "INTERSECT": true, "ALL": true, "RECURSIVE": true, "FOR": true, "UPDATE": true}
+
+// operandStart: a "(" at position i of raw (followed by SELECT or by another such "(") stands where a set operand or the
+// query of an inline table may start - not where an expression or a table may
+func operandStart(raw []string, i int) bool {
+	for i > 0 && raw[i-1] == "(" {
+		i--
+	}
+	if i == 0 {
+		return true
+	}
+	switch raw[i-1] {
+	case "UNION", "EXCEPT", "INTERSECT", "ALL", "AS":
+		return true
+	}
+	return false
+}
+
 var selChars = map[rune]bool{'(': true, ')': true, ',': true, '.': true, '*': true, '+': true, '-': true, '/': true, '%': true, '=': true, '!': true}
 
 func isIdentWord(w string) bool {
@@ -46,7 +66,7 @@ func selWords(text string, names map[string]string) (ws []string, ok bool) {
 		case t.Token == parser.COMPARISON_OP || t.Token == parser.STRING_OP:
 			raw = append(raw, t.Literal)
 		case t.Token >= parser.SELECT && t.Token <= parser.JSON_OBJECT:
-			if !selKeywords[strings.ToUpper(t.Literal)] {
+			if !selKeywords[strings.ToUpper(t.Literal)] && !(qryMode && qryKeywords[strings.ToUpper(t.Literal)]) {
 				return nil, false
 			}
 			raw = append(raw, strings.ToUpper(t.Literal))
@@ -70,19 +90,19 @@ func selWords(text string, names map[string]string) (ws []string, ok bool) {
 		case isIdentWord(w) && i+2 < len(raw) && raw[i+1] == "." && isIdentWord(raw[i+2]):
 			ws = append(ws, w+"."+raw[i+2])
 			i += 2
-		case isIdentWord(w) && i+1 < len(raw) && raw[i+1] == "(":
+		case isIdentWord(w) && i+1 < len(raw) && raw[i+1] == "(" && !(qryMode && i > 0 && (raw[i-1] == "WITH" || raw[i-1] == "RECURSIVE" || raw[i-1] == ",")):
 			return nil, false // function call
 		case w == "." && !(i+1 < len(raw) && raw[i+1] == "*" && i > 0 && isIdentWord(raw[i-1])):
 			return nil, false // t.1, stray dots
-		case w == "(" && i+1 < len(raw) && raw[i+1] == "SELECT":
+		case w == "(" && i+1 < len(raw) && raw[i+1] == "SELECT" && !(qryMode && operandStart(raw, i)):
 			return nil, false // sub-select
-		case w == "WITH" && !(i+1 < len(raw) && raw[i+1] == "TIES"):
+		case w == "WITH" && !(i+1 < len(raw) && raw[i+1] == "TIES") && !qryMode:
 			return nil, false // common table expression
 		case (w == "FIRST" || w == "LAST") && !(i > 0 && raw[i-1] == "NULLS"):
 			return nil, false // FETCH FIRST
 		case (w == "LIMIT" || w == "OFFSET") && !(i+1 < len(raw) && isNumWord(raw[i+1])):
 			return nil, false
-		case (w == "LIMIT" || w == "OFFSET") && i+2 < len(raw) && !(selKeywords[raw[i+2]] && raw[i+2] != "OR" && raw[i+2] != "AND" && raw[i+2] != "IS" && raw[i+2] != "LIKE" && raw[i+2] != "NOT" && raw[i+2] != "BETWEEN" && raw[i+2] != "IN" || raw[i+2] == ")"):
+		case (w == "LIMIT" || w == "OFFSET") && i+2 < len(raw) && !(selKeywords[raw[i+2]] && raw[i+2] != "OR" && raw[i+2] != "AND" && raw[i+2] != "IS" && raw[i+2] != "LIKE" && raw[i+2] != "NOT" && raw[i+2] != "BETWEEN" && raw[i+2] != "IN" || raw[i+2] == ")" || qryMode && qryKeywords[raw[i+2]]):
 			return nil, false // the value of LIMIT / OFFSET is an expression: the model has plain numbers only
 		case w == "NULL" || w == "TRUE" || w == "FALSE" || w == "UNKNOWN":
 			if !(i > 0 && (raw[i-1] == "IS" || raw[i-1] == "NOT" && i > 1 && raw[i-2] == "IS")) {
@@ -97,6 +117,9 @@ func selWords(text string, names map[string]string) (ws []string, ok bool) {
 		return nil, false
 	}
 	for i, w := range ws {
+		if qryMode && qryKeywords[w] {
+			continue
+		}
 		if isIdentWord(strings.SplitN(w, ".", 2)[0]) {
 			if _, seen := names[w]; !seen {
 				names[w] = fmt.Sprintf("x%d", len(names))
@@ -125,7 +148,43 @@ func selImpl(text string, names map[string]string) string {
 	if !ok {
 		return "OUTSIDE"
 	}
+	if qryMode {
+		// the shape of the tree too: the printer adds no parentheses, so the tokens alone do not show the precedence
+		return qryShape(sq) + " | " + strings.Join(ws, " ")
+	}
 	return strings.Join(ws, " ")
+}
+
+func qryShape(sq parser.SelectQuery) string {
+	s := ""
+	if wc, ok := sq.WithClause.(parser.WithClause); ok {
+		parts := make([]string, len(wc.InlineTables))
+		for i, it := range wc.InlineTables {
+			if t, ok := it.(parser.InlineTable); ok {
+				parts[i] = qryShape(t.Query)
+			} else {
+				parts[i] = "?"
+			}
+		}
+		s = "W[" + strings.Join(parts, ",") + "]"
+	}
+	return s + entShape(sq.SelectEntity)
+}
+
+func entShape(e parser.QueryExpression) string {
+	switch x := e.(type) {
+	case parser.SelectEntity:
+		return "s"
+	case parser.Subquery:
+		return "P[" + qryShape(x.Query) + "]"
+	case parser.SelectSet:
+		op := map[int]string{parser.UNION: "U", parser.EXCEPT: "X", parser.INTERSECT: "I"}[x.Operator.Token]
+		if !x.All.IsEmpty() {
+			op += "a"
+		}
+		return op + "(" + entShape(x.LHS) + "," + entShape(x.RHS) + ")"
+	}
+	return "?"
 }
 
 func selCase(o *hc.Out, text, origin string) {
@@ -154,6 +213,127 @@ func selCase(o *hc.Out, text, origin string) {
 		}
 		o.NonTrivial("sel:" + strings.Join(sig, " "))
 	}
+}
+
+// qryCase: op c18.qry - the same protocol as c18.sel, one level up: the real parser + SelectQuery.String() against the
+// model's parseWhole / printQuery (Csvq/Model/Query.lean)
+func qryCase(o *hc.Out, text string) {
+	qryMode = true
+	defer func() { qryMode = false }()
+	names := map[string]string{}
+	ws, ok := selWords(text, names)
+	if !ok || len(ws) == 0 {
+		o.Count("qry.outside_fragment")
+		return
+	}
+	impl := selImpl(text, names)
+	if impl == "OUTSIDE" {
+		o.Count("qry.outside_fragment")
+		return
+	}
+	o.Case("c18.qry "+strings.Join(ws, " "), impl)
+	if impl == "ERR" {
+		o.Count("qry.err")
+		o.NonTrivial("qry:err:" + strings.Join(ws, " "))
+		return
+	}
+	o.Count("qry.ok")
+	sig := make([]string, 0, len(ws))
+	for _, w := range ws {
+		if selKeywords[w] || qryKeywords[w] || w == "," || w == "(" || w == ")" {
+			sig = append(sig, w)
+		}
+	}
+	o.NonTrivial("qry:" + strings.Join(sig, " "))
+}
+
+var qryWitnesses = []string{
+	"select 1 union select 2", "select 1 union all select 2", "select 1 except select 2 intersect select 3", "select 1 intersect select 2 union select 3",
+	"select 1 union select 2 union select 3", "select 1 union (select 2 union select 3)", "(select 1 union select 2) intersect all select 3",
+	"select 1 union select 2 order by 1", "select 1 order by 1 union select 2", "(select 1 order by 1) union select 2", "(select 1) union (select 2) order by 1 limit 2 offset 1",
+	"select 1 limit 1 union select 2", "(select 1)", "((select 1)) union select 2", "select 1 union", "select 1 union all", "select 1 all select 2", "union select 1",
+	"select 1 for update", "select a from t for update", "select 1 union select 2 for update", "(select 1 for update) union select 2", "select 1 for", "select 1 update",
+	"with w as (select 1) select a from w", "with recursive w (n) as (select 1 union all select n + 1 from w where n < 3) select n from w",
+	"with w as (select 1), v (a, b) as (select 1, 2) select 1 union select 2", "with w as (with v as (select 1) select a from v) select a from w",
+	"with w as select 1 select 2", "with w (1) as (select 1) select 2", "with w as (select 1),  select 2", "with select 1", "with w () as (select 1) select 2",
+	"select a from t where a between 1 and 2 union select b from u where b in (1, 2) order by a limit 3",
+}
+
+func genQryText(g *hc.Gen, d int) string {
+	unit := func() string {
+		if d > 0 && g.Intn(4) == 0 {
+			return "(" + genQryText(g, d-1) + ")"
+		}
+		t := genSelTextPlain(g)
+		if g.Intn(8) != 0 {
+			// mostly without ORDER BY / LIMIT / OFFSET: only the last operand may carry them
+			for _, kw := range []string{" order by ", " limit ", " offset "} {
+				if i := strings.Index(t, kw); i >= 0 {
+					t = t[:i]
+				}
+			}
+		}
+		return t
+	}
+	s := unit()
+	for k := g.Intn(4); k > 0; k-- {
+		s += " " + g.Pick("union", "union", "except", "intersect") + g.Pick("", "", " all") + " " + unit()
+	}
+	switch g.Intn(6) {
+	case 0:
+		s += " order by 1" + g.Pick("", " desc") + g.Pick("", " limit 3", " limit 2 offset 1")
+	case 1:
+		s += " limit " + fmt.Sprint(1+g.Intn(9))
+	}
+	if g.Intn(8) == 0 {
+		s += " for update"
+	}
+	if d > 0 && g.Intn(4) == 0 {
+		w := "with "
+		for k := 1 + g.Intn(2); k > 0; k-- {
+			w += g.Pick("", "", "recursive ") + g.Pick("w", "v", "cte") + g.Pick("", "", " (a)", " (a, b)") + " as (" + genQryText(g, d-1) + ")"
+			if k > 1 {
+				w += ", "
+			}
+		}
+		s = w + " " + s
+	}
+	return s
+}
+
+// a SELECT without damage
+func genSelTextPlain(g *hc.Gen) string {
+	for {
+		s := genSelText(g)
+		if _, inside := selWords(s, map[string]string{}); !inside {
+			continue
+		}
+		if r := tryParse(s, false, false); r.err == nil && r.panicked == nil {
+			return s
+		}
+	}
+}
+
+func genQryCaseText(g *hc.Gen) string {
+	s := genQryText(g, 2)
+	if g.Intn(5) == 0 {
+		ws := strings.Fields(strings.NewReplacer("(", " ( ", ")", " ) ", ",", " , ").Replace(s))
+		i := g.Intn(len(ws))
+		switch g.Intn(4) {
+		case 0:
+			ws = append(ws[:i:i], ws[i+1:]...)
+		case 1:
+			ws = append(ws[:i+1:i+1], ws[i:]...)
+		case 2:
+			j := g.Intn(len(ws))
+			ws[i], ws[j] = ws[j], ws[i]
+		case 3:
+			ins := g.Pick("union", "all", "(", ")", "with", "as", "for", "update", "recursive", "intersect", "order by 1", "limit 1")
+			ws = append(ws[:i:i], append([]string{ins}, ws[i:]...)...)
+		}
+		s = strings.Join(ws, " ")
+	}
+	return s
 }
 
 // ---------- generator of queries inside the modelled fragment ----------
